@@ -58,7 +58,7 @@ def build_traces(path, tier, seed):
 
     # 1. the lattice: every record over {-1, 0, 2} of length 2..L, dt = 1/2, four option sets x nodal x trim x start
     dt = 0.5
-    L = 4 if tier == "quick" else 5
+    L = 4 if tier == "quick" else 6
     optsets = [
         dict(tts=[0.0], ru=1.0, rd=1.0, stt=0.0, scalar=False),
         dict(tts=[0.125, 0.5, 0.75], ru=1.0, rd=0.5, stt=0.5, scalar=False),
@@ -159,7 +159,7 @@ def build_traces(path, tier, seed):
 def run(tier, seed):
     rep = Report("C19", tier, seed)
     wd = workdir("C19")
-    maxlen = 5 if tier == "quick" else 7
+    maxlen = 5 if tier == "quick" else 8
     r = tlc.run("MC_Surface", cfg=MC_CFG % maxlen, job="C19/mc", coverage=(tier == "thorough"))
     if r.invariant_violated:
         raise tlc.MachineryError("model invariant violated in MC_Surface: %s" % r.invariant_violated)
